@@ -1,15 +1,24 @@
 // C06 driver: forces TLC-generated interleavings (spec/ConnCode.tla, storage-operation granularity,
 // with expiry and single write faults) of concurrent ActivateConnectionCode / RevokeConnectionCode
 // calls on ONE connection code on the real conncode.Service + PortMappingService + repositories +
-// IDManager running over a gate-controlled store double, and records call/return events, Expire and
-// Fault events and the final store contents for the judge (spec/ConnCodeTrace.tla).
+// IDManager, and records call/return events, Expire and Fault events and the final store contents
+// for the judge (spec/ConnCodeTrace.tla).
 //
-// Storage seam: in production the repositories sit on hybrid.Storage; nothing in the activation path
-// relies on hybrid for atomicity (the repaired code relies on SetNX, which hybrid forwards to the
-// cache tier that owns the key - the shared cache for "tunnox:runtime:conncode:"). The scheduled
-// behaviours therefore run directly on the store double (one gate per storage call of the
-// repositories; hybrid's own tier steps are C14's subject). The free-running stress variant runs both
-// directly on the double and through the real hybrid.Storage over a local + a shared cache double.
+// Every generated behaviour is driven on two rigs:
+//
+//   - "double": ONE service over a gate-controlled store double (one gate per storage call of the
+//     repositories). Nothing in the activation path relies on hybrid.Storage for atomicity on one node.
+//   - "nodes2": TWO nodes = two conncode.Service instances, each over its OWN real hybrid.Storage
+//     (own local-cache double; the shared-cache double and the persistent double in common;
+//     hybrid.DefaultConfig key classification with persistence enabled). The processes listed in
+//     Node2 call through node n2. The gate is the storage facade call of the node (a thin wrapper
+//     around the node's hybrid.Storage parks the caller, then forwards to the real hybrid, which
+//     routes the key to whichever tier its configuration says); a model step = one facade call, as on
+//     the single store. An injected write fault makes the first tier write of that facade call fail.
+//     Whether the claim is cluster-wide is therefore decided by the real hybrid routing of the real
+//     claim key - a claim that lands in the node-local cache lets both nodes win (model: ClaimLocal).
+//
+// The free-running stress variant runs on the double, through one hybrid.Storage, and on two nodes.
 package main
 
 import (
@@ -45,7 +54,6 @@ const (
 
 	kCode   = "tunnox:runtime:conncode:code:"
 	kCodeID = "tunnox:runtime:conncode:id:"
-	kClaim  = "tunnox:runtime:conncode:claimed:"
 	kIDMark = "tunnox:id:used:pmap:"
 	kMap    = "tunnox:port_mapping:"
 	kGList  = "tunnox:mappings:list"
@@ -61,25 +69,33 @@ type step struct {
 }
 
 type behaviour struct {
-	Steps  []step   `json:"steps,omitempty"`
-	Legacy bool     `json:"legacy"` // generated from the model of the code before the repair (no claim step)
-	Pre    []string `json:"pre"`    // activators whose client already owns one active mapping
-	Quota  int      `json:"quota"`
+	Steps   []step   `json:"steps,omitempty"`
+	Legacy  bool     `json:"legacy"`  // generated from a model of a design the code no longer has
+	Pre     []string `json:"pre"`     // activators whose client already owns one active mapping
+	Quota   int      `json:"quota"`   // max active mappings per client
+	Backend string   `json:"backend"` // "double" | "hybrid" (free-running only) | "nodes2"
+	Node2   []string `json:"node2"`   // backend nodes2: processes that call through node n2
 	// free-running variant
-	Free    bool   `json:"free,omitempty"`
-	Backend string `json:"backend,omitempty"` // "double" | "hybrid"
-	Procs   int    `json:"procs,omitempty"`
-	Rev     bool   `json:"rev,omitempty"`
-	Expire  bool   `json:"expire,omitempty"`
-	Fault   int    `json:"fault,omitempty"` // n-th storage write of the calls fails (0 = none)
-	Seed    int    `json:"seed,omitempty"`
+	Free   bool `json:"free,omitempty"`
+	Procs  int  `json:"procs,omitempty"`
+	Rev    bool `json:"rev,omitempty"`
+	Expire bool `json:"expire,omitempty"`
+	Fault  int  `json:"fault,omitempty"` // n-th storage write of the calls fails (0 = none)
+	Seed   int  `json:"seed,omitempty"`
+}
+
+type node struct {
+	name string
+	svc  *services.ConnectionCodeService
+	cc   *repos.ConnectionCodeRepository
+	pm   *repos.PortMappingRepo
 }
 
 type rig struct {
 	s         *sched.Sched
-	st        *doubles.Store // the store (backend double) or the local cache tier (backend hybrid)
-	sh        *doubles.Store // shared cache tier (backend hybrid only)
-	svc       *services.ConnectionCodeService
+	stores    []*doubles.Store // every store / tier double of the rig
+	nodes     map[string]*node
+	node2     map[string]bool
 	cancel    context.CancelFunc
 	expiresAt time.Time
 	pre       []string // ids of the pre-existing mappings
@@ -92,27 +108,116 @@ type rig struct {
 
 func preID(a string) string { return "pmap_pre_" + a }
 
-func newRig(free bool, backend string, ttl time.Duration, pre []string, quota int) (*rig, error) {
-	r := &rig{s: sched.New(free)}
+func (r *rig) nodeOf(p string) string {
+	if r.node2[p] && r.nodes["n2"] != nil {
+		return "n2"
+	}
+	return "n1"
+}
+
+// facade is the storage a node's repositories see: the node's real hybrid.Storage behind a gate per call.
+type facade struct {
+	*hybrid.Storage
+	s    *sched.Sched
+	name string
+}
+
+func (f *facade) gate(op, key string) { f.s.Gate(f.name+"."+op, map[string]any{"key": key}) }
+func (f *facade) Set(k string, v any, ttl time.Duration) error {
+	f.gate("Set", k)
+	defer f.s.After()
+	return f.Storage.Set(k, v, ttl)
+}
+func (f *facade) Get(k string) (any, error) {
+	f.gate("Get", k)
+	defer f.s.After()
+	return f.Storage.Get(k)
+}
+func (f *facade) Delete(k string) error {
+	f.gate("Delete", k)
+	defer f.s.After()
+	return f.Storage.Delete(k)
+}
+func (f *facade) Exists(k string) (bool, error) {
+	f.gate("Exists", k)
+	defer f.s.After()
+	return f.Storage.Exists(k)
+}
+func (f *facade) SetList(k string, v []any, ttl time.Duration) error {
+	f.gate("SetList", k)
+	defer f.s.After()
+	return f.Storage.SetList(k, v, ttl)
+}
+func (f *facade) GetList(k string) ([]any, error) {
+	f.gate("GetList", k)
+	defer f.s.After()
+	return f.Storage.GetList(k)
+}
+func (f *facade) AppendToList(k string, v any) error {
+	f.gate("AppendToList", k)
+	defer f.s.After()
+	return f.Storage.AppendToList(k, v)
+}
+func (f *facade) RemoveFromList(k string, v any) error {
+	f.gate("RemoveFromList", k)
+	defer f.s.After()
+	return f.Storage.RemoveFromList(k, v)
+}
+func (f *facade) SetNX(k string, v any, ttl time.Duration) (bool, error) {
+	f.gate("SetNX", k)
+	defer f.s.After()
+	return f.Storage.SetNX(k, v, ttl)
+}
+
+func (r *rig) addNode(ctx context.Context, name string, stor storage.Storage, quota int) {
+	repo := repos.NewRepository(stor)
+	n := &node{name: name, cc: repos.NewConnectionCodeRepository(repo), pm: repos.NewPortMappingRepo(repo)}
+	idm := idgen.NewIDManager(stor, ctx)
+	pms := services.NewPortMappingService(n.pm, idm, nil, ctx)
+	n.svc = services.NewConnectionCodeService(n.cc, pms, n.pm,
+		&services.ConnectionCodeServiceConfig{MaxActiveCodesPerClient: 10, MaxActiveMappingsPerClient: quota}, ctx)
+	r.nodes[name] = n
+}
+
+func newRig(free bool, backend string, node2 []string, ttl time.Duration, pre []string, quota int) (*rig, error) {
+	r := &rig{s: sched.New(free), nodes: map[string]*node{}, node2: map[string]bool{}}
 	r.s.Watchdog = 2 * time.Second
-	r.st = doubles.NewStore("sd", r.s)
 	ctx, cancel := context.WithCancel(context.Background())
 	r.cancel = cancel
-	var stor storage.Storage = r.st
-	if backend == "hybrid" {
-		r.sh = doubles.NewStore("sh", r.s)
-		stor = hybrid.NewWithSharedCache(ctx, r.st, r.sh, nil, hybrid.DefaultConfig())
-	}
-	repo := repos.NewRepository(stor)
-	ccRepo := repos.NewConnectionCodeRepository(repo)
-	pmRepo := repos.NewPortMappingRepo(repo)
-	idm := idgen.NewIDManager(stor, ctx)
-	pms := services.NewPortMappingService(pmRepo, idm, nil, ctx)
 	if quota <= 0 {
 		quota = 50
 	}
-	r.svc = services.NewConnectionCodeService(ccRepo, pms, pmRepo,
-		&services.ConnectionCodeServiceConfig{MaxActiveCodesPerClient: 10, MaxActiveMappingsPerClient: quota}, ctx)
+	mk := func(name string, gated bool) *doubles.Store {
+		var s *sched.Sched
+		if gated {
+			s = r.s
+		}
+		st := doubles.NewStore(name, s)
+		r.stores = append(r.stores, st)
+		return st
+	}
+	switch backend {
+	case "", "double":
+		r.addNode(ctx, "n1", mk("sd", true), quota)
+	case "hybrid": // one node through the real hybrid.Storage; the tier doubles carry the (free-running) gates
+		r.addNode(ctx, "n1", hybrid.NewWithSharedCache(ctx, mk("sd", true), mk("sh", true), nil, hybrid.DefaultConfig()), quota)
+	case "nodes2":
+		// scheduled: the gate is the facade call, the tier doubles run ungated; free-running: jitter at both levels
+		sh, ps := mk("sh", free), mk("ps", free)
+		for _, name := range []string{"n1", "n2"} {
+			cfg := hybrid.DefaultConfig()
+			cfg.EnablePersistent = true
+			h := hybrid.NewWithSharedCache(ctx, mk("l"+name[1:], free), sh, doubles.Pers{St: ps}, cfg)
+			r.addNode(ctx, name, &facade{Storage: h, s: r.s, name: name}, quota)
+		}
+		for _, p := range node2 {
+			r.node2[p] = true
+		}
+	default:
+		cancel()
+		return nil, fmt.Errorf("unknown backend %q", backend)
+	}
+	n1 := r.nodes["n1"]
 	// the code, as CreateConnectionCode stores it (driver goroutine: passes the gates unparked)
 	now := time.Now()
 	// wall-clock reading only (Round(0) strips the monotonic part): the code under test compares
@@ -120,7 +225,7 @@ func newRig(free bool, backend string, ttl time.Duration, pre []string, quota in
 	r.expiresAt = now.Add(ttl).Round(0)
 	code := &models.TunnelConnectionCode{ID: codeID, Code: codeStr, TargetClientID: targetClient, TargetAddress: targetAddr,
 		ActivationTTL: ttl, MappingDuration: 24 * time.Hour, CreatedAt: now, ActivationExpiresAt: r.expiresAt, CreatedBy: "verif"}
-	if err := ccRepo.Create(code); err != nil {
+	if err := n1.cc.Create(code); err != nil {
 		cancel()
 		return nil, fmt.Errorf("create code: %w", err)
 	}
@@ -129,11 +234,11 @@ func newRig(free bool, backend string, ttl time.Duration, pre []string, quota in
 		m := &models.PortMapping{ID: preID(a), ListenClientID: clientOf[a], TargetClientID: otherTarget, Protocol: models.ProtocolTCP,
 			SourcePort: 7000, TargetHost: "10.9.9.9", TargetPort: 7001, ListenAddress: "0.0.0.0:7000", TargetAddress: "tcp://10.9.9.9:7001",
 			Status: models.MappingStatusActive, CreatedAt: now, UpdatedAt: now, Type: models.MappingTypeAnonymous}
-		if err := pmRepo.CreatePortMapping(m); err != nil {
+		if err := n1.pm.CreatePortMapping(m); err != nil {
 			cancel()
 			return nil, fmt.Errorf("create pre mapping: %w", err)
 		}
-		if err := pmRepo.AddMappingToClient(fmt.Sprint(clientOf[a]), m); err != nil {
+		if err := n1.pm.AddMappingToClient(fmt.Sprint(clientOf[a]), m); err != nil {
 			cancel()
 			return nil, fmt.Errorf("index pre mapping: %w", err)
 		}
@@ -152,88 +257,96 @@ func newRig(free bool, backend string, ttl time.Duration, pre []string, quota in
 		}
 		return nil
 	}
-	r.st.Fault = fault
-	if r.sh != nil {
-		r.sh.Fault = fault
+	for _, st := range r.stores {
+		st.Fault = fault
 	}
 	return r, nil
 }
 
-// classify names a storage write by operation and key class (the Fault event label).
-func classify(op, key string) string {
-	o := strings.TrimSuffix(strings.TrimSuffix(op, "ToList"), "FromList")
+// keyClass names the kind of record a storage key holds. The claim key is recognised by what it is
+// (a key of this code that is not the code record), not by its exact prefix.
+func keyClass(key string) string {
 	switch {
 	case strings.HasPrefix(key, kCodeID):
-		return o + ":code_by_id"
+		return "code_by_id"
 	case strings.HasPrefix(key, kCode):
-		return o + ":code_by_code"
-	case strings.HasPrefix(key, kClaim):
-		return o + ":claim"
+		return "code_by_code"
 	case strings.HasPrefix(key, kIDMark):
-		return o + ":id_mark"
+		return "id_mark"
 	case strings.HasPrefix(key, kMap):
-		return o + ":port_mapping"
+		return "port_mapping"
 	case key == kGList:
-		return o + ":mappings_list"
+		return "mappings_list"
 	case strings.HasPrefix(key, kCList):
-		return o + ":client_list"
+		return "client_list"
+	case strings.HasSuffix(key, ":"+codeStr) && !strings.HasPrefix(key, "tunnox:index:"):
+		return "claim"
 	}
-	return o + ":other"
+	return "other"
 }
 
-type gate struct{ op, key string }
+// classify names a storage write by operation and key class (the Fault event label).
+func classify(op, key string) string {
+	return strings.TrimSuffix(strings.TrimSuffix(op, "ToList"), "FromList") + ":" + keyClass(key)
+}
 
-// gateOf maps a model step of process p to the storage call the goroutine must be parked in front of.
+// gate: the storage call a process must be parked in front of: operation + key class (+ the identity
+// the driver itself chose: client id of a list, id of a pre-existing mapping).
+type gate struct{ op, class, ident string }
+
+func (g gate) String() string { return g.op + " " + g.class + " " + g.ident }
+
+// gateOf maps a model step of process p to its storage call.
 func gateOf(p, a string) (gate, bool) {
-	listen := kCList + fmt.Sprint(clientOf[p])
-	target := kCList + fmt.Sprint(targetClient)
+	listen := fmt.Sprint(clientOf[p])
+	target := fmt.Sprint(targetClient)
 	switch a {
 	case "Read", "RRead":
-		return gate{"Get", kCode + codeStr}, true
+		return gate{"Get", "code_by_code", ""}, true
 	case "QList":
-		return gate{"GetList", listen}, true
+		return gate{"GetList", "client_list", listen}, true
 	case "QGet":
-		return gate{"Get", kMap + preID(p)}, true
+		return gate{"Get", "port_mapping", preID(p)}, true
 	case "Claim":
-		return gate{"SetNX", kClaim + codeStr}, true
+		return gate{"SetNX", "claim", ""}, true
 	case "GenId":
-		return gate{"SetNX", kIDMark}, true
+		return gate{"SetNX", "id_mark", ""}, true
 	case "CGet", "RbGet":
-		return gate{"Get", kMap}, true
+		return gate{"Get", "port_mapping", ""}, true
 	case "CSet":
-		return gate{"Set", kMap}, true
+		return gate{"Set", "port_mapping", ""}, true
 	case "CApp":
-		return gate{"AppendToList", kGList}, true
+		return gate{"AppendToList", "mappings_list", ""}, true
 	case "CDel", "RbDel":
-		return gate{"Delete", kMap}, true
+		return gate{"Delete", "port_mapping", ""}, true
 	case "RelId", "RbRelId":
-		return gate{"Delete", kIDMark}, true
+		return gate{"Delete", "id_mark", ""}, true
 	case "IdxL":
-		return gate{"AppendToList", listen}, true
+		return gate{"AppendToList", "client_list", listen}, true
 	case "IdxT":
-		return gate{"AppendToList", target}, true
+		return gate{"AppendToList", "client_list", target}, true
 	case "UpdC", "RUpdC":
-		return gate{"Set", kCode + codeStr}, true
+		return gate{"Set", "code_by_code", ""}, true
 	case "UpdI", "RUpdI":
-		return gate{"Set", kCodeID + codeID}, true
+		return gate{"Set", "code_by_id", ""}, true
 	case "RbRemL":
-		return gate{"RemoveFromList", listen}, true
+		return gate{"RemoveFromList", "client_list", listen}, true
 	case "RbRemT":
-		return gate{"RemoveFromList", target}, true
+		return gate{"RemoveFromList", "client_list", target}, true
 	case "RbRemG":
-		return gate{"RemoveFromList", kGList}, true
+		return gate{"RemoveFromList", "mappings_list", ""}, true
 	case "RelClaim":
-		return gate{"Delete", kClaim + codeStr}, true
+		return gate{"Delete", "claim", ""}, true
 	}
 	return gate{}, false
 }
 
 func (g gate) matches(at sched.GateInfo) bool {
-	if at.Point != "sd."+g.op {
+	if !strings.HasSuffix(at.Point, "."+g.op) {
 		return false
 	}
 	k, _ := at.Info["key"].(string)
-	return strings.HasPrefix(k, g.key)
+	return keyClass(k) == g.class && strings.HasSuffix(k, g.ident)
 }
 
 type callRes struct {
@@ -246,25 +359,26 @@ type callRes struct {
 }
 
 func (r *rig) activate(p string) callRes {
-	m, err := r.svc.ActivateConnectionCode(&services.ActivateConnectionCodeRequest{Code: codeStr, ListenClientID: clientOf[p], ListenAddress: "0.0.0.0:9" + p[1:] + "00"})
+	svc := r.nodes[r.nodeOf(p)].svc
+	m, err := svc.ActivateConnectionCode(&services.ActivateConnectionCodeRequest{Code: codeStr, ListenClientID: clientOf[p], ListenAddress: "0.0.0.0:9" + p[1:] + "00"})
 	if err != nil || m == nil {
 		return callRes{err: fmt.Sprint(err)}
 	}
 	return callRes{ok: true, id: m.ID, listen: m.ListenClientID, tclient: m.TargetClientID, taddr: m.TargetAddress}
 }
 
-func (r *rig) revoke() callRes {
-	if err := r.svc.RevokeConnectionCode(codeStr, "verif"); err != nil {
+func (r *rig) revoke(p string) callRes {
+	if err := r.nodes[r.nodeOf(p)].svc.RevokeConnectionCode(codeStr, "verif"); err != nil {
 		return callRes{err: err.Error()}
 	}
 	return callRes{ok: true}
 }
 
-func callEvent(p string) fw.Event {
+func (r *rig) callEvent(p string) fw.Event {
 	if p == "r" {
-		return fw.Event{"ev": "Call", "p": p, "op": "Rev", "client": 0}
+		return fw.Event{"ev": "Call", "p": p, "op": "Rev", "client": 0, "node": r.nodeOf(p)}
 	}
-	return fw.Event{"ev": "Call", "p": p, "op": "Act", "client": clientOf[p]}
+	return fw.Event{"ev": "Call", "p": p, "op": "Act", "client": clientOf[p], "node": r.nodeOf(p)}
 }
 
 func retEvent(p string, res callRes) fw.Event {
@@ -283,25 +397,36 @@ func (r *rig) codeEvent() fw.Event {
 	return fw.Event{"ev": "Code", "target": targetClient, "addr": targetAddr, "pre": pre}
 }
 
-// dropCodeKeys: the activation TTL elapsed - the two code keys and the claim key (same TTL) are gone.
+// dropCodeKeys: the activation TTL elapsed - the two code keys and the claim key (same TTL) are gone,
+// in whichever tier they live.
 func (r *rig) dropCodeKeys() {
-	for _, st := range []*doubles.Store{r.st, r.sh} {
-		if st != nil {
-			st.Expire(kCode + codeStr)
-			st.Expire(kCodeID + codeID)
-			st.Expire(kClaim + codeStr)
-		}
+	for _, st := range r.stores {
+		st.ExpireWhere(func(k string, ttl time.Duration) bool {
+			c := keyClass(k)
+			return c == "code_by_code" || c == "code_by_id" || c == "claim"
+		})
 	}
 }
 
-// finalEvent: every port-mapping record in the store, and the state of the code record.
+// finalEvent: every port-mapping record in any tier (what a Get through a node would find), and the
+// state of the code record.
 func (r *rig) finalEvent() (fw.Event, error) {
 	maps := []any{}
 	snap := map[string]any{}
-	for _, st := range []*doubles.Store{r.st, r.sh} {
-		if st != nil {
-			for k, v := range st.Snapshot(kMap) {
-				snap[k] = v
+	code := map[string]any{"present": false, "activated": false, "revoked": false, "claimed": false}
+	for _, st := range r.stores {
+		for k, v := range st.Snapshot(kMap) {
+			snap[k] = v
+		}
+		if v, ok := st.Peek(kCode + codeStr); ok {
+			var c models.TunnelConnectionCode
+			if s, isStr := v.(string); isStr && json.Unmarshal([]byte(s), &c) == nil {
+				code["present"], code["activated"], code["revoked"] = true, c.IsActivated, c.IsRevoked
+			}
+		}
+		for k := range st.Snapshot("tunnox:runtime:") {
+			if keyClass(k) == "claim" {
+				code["claimed"] = true
 			}
 		}
 	}
@@ -320,21 +445,6 @@ func (r *rig) finalEvent() (fw.Event, error) {
 			return nil, fmt.Errorf("mapping record %s: %v", k, err)
 		}
 		maps = append(maps, map[string]any{"id": m.ID, "listen": m.ListenClientID, "tclient": m.TargetClientID, "taddr": m.TargetAddress, "status": string(m.Status)})
-	}
-	code := map[string]any{"present": false, "activated": false, "revoked": false, "claimed": false}
-	for _, st := range []*doubles.Store{r.st, r.sh} {
-		if st == nil {
-			continue
-		}
-		if v, ok := st.Peek(kCode + codeStr); ok {
-			var c models.TunnelConnectionCode
-			if s, isStr := v.(string); isStr && json.Unmarshal([]byte(s), &c) == nil {
-				code["present"], code["activated"], code["revoked"] = true, c.IsActivated, c.IsRevoked
-			}
-		}
-		if _, ok := st.Peek(kClaim + codeStr); ok {
-			code["claimed"] = true
-		}
 	}
 	return fw.Event{"ev": "Final", "maps": maps, "code": code}, nil
 }
@@ -359,7 +469,7 @@ func drive(env *fw.Env, b fw.Behaviour) *fw.Trace {
 	if hasExpire {
 		ttl = expireTTL
 	}
-	r, err := newRig(false, "double", ttl, beh.Pre, beh.Quota)
+	r, err := newRig(false, beh.Backend, beh.Node2, ttl, beh.Pre, beh.Quota)
 	if err != nil {
 		return &fw.Trace{Status: fw.DriverError, Note: err.Error()}
 	}
@@ -410,10 +520,10 @@ func drive(env *fw.Env, b fw.Behaviour) *fw.Trace {
 			started[st.P] = true
 			order = append(order, st.P)
 			p := st.P
-			t.Events = append(t.Events, callEvent(p))
+			t.Events = append(t.Events, r.callEvent(p))
 			var state string
 			if p == "r" {
-				state = r.s.Start(p, func() any { return r.revoke() })
+				state = r.s.Start(p, func() any { return r.revoke(p) })
 			} else {
 				state = r.s.Start(p, func() any { return r.activate(p) })
 			}
@@ -428,7 +538,7 @@ func drive(env *fw.Env, b fw.Behaviour) *fw.Trace {
 		}
 		stt, at := r.s.State(st.P)
 		if stt != sched.Parked || !g.matches(at) {
-			return unreal("step %d: %s is %s at %s %v, model expects %s (%s %s...)", i, st.P, stt, at.Point, at.Info["key"], st.A, g.op, g.key)
+			return unreal("step %d: %s is %s at %s %v, model expects %s (%s)", i, st.P, stt, at.Point, at.Info["key"], st.A, g)
 		}
 		if st.F {
 			r.armed.Store(true)
@@ -480,14 +590,20 @@ func driveFree(env *fw.Env, beh behaviour) *fw.Trace {
 	if beh.Expire {
 		ttl = time.Duration(2+rnd.Intn(6)) * time.Millisecond
 	}
-	r, err := newRig(true, beh.Backend, ttl, beh.Pre, beh.Quota)
+	var node2 []string
+	for i := 2; i <= beh.Procs; i += 2 {
+		node2 = append(node2, fmt.Sprintf("a%d", i)) // backend nodes2: activators alternate between the nodes
+	}
+	if beh.Seed%2 == 0 {
+		node2 = append(node2, "r")
+	}
+	r, err := newRig(true, beh.Backend, node2, ttl, beh.Pre, beh.Quota)
 	if err != nil {
 		return &fw.Trace{Status: fw.DriverError, Note: err.Error()}
 	}
 	defer r.close()
-	r.st.RealTTL = true
-	if r.sh != nil {
-		r.sh.RealTTL = true
+	for _, st := range r.stores {
+		st.RealTTL = true
 	}
 	var rmu sync.Mutex
 	r.s.FreeDelay = func(name string, g sched.GateInfo) {
@@ -550,10 +666,10 @@ func driveFree(env *fw.Env, beh behaviour) *fw.Trace {
 		r.s.Start(p, func() any {
 			defer wg.Done()
 			time.Sleep(offsets[p])
-			log(callEvent(p))
+			log(r.callEvent(p))
 			var res callRes
 			if p == "r" {
-				res = r.revoke()
+				res = r.revoke(p)
 			} else {
 				res = r.activate(p)
 			}
@@ -597,6 +713,8 @@ type genCfg struct {
 	pre      string
 	quota    int
 	repaired bool
+	node2    string // TLA+ set of the processes that call through node n2 (default {"a2","r"})
+	clocal   bool   // model variant: the claim key lives in each node's local cache tier
 	emit     bool
 	invs     string
 	workers  int
@@ -630,9 +748,13 @@ func (c genCfg) job() fw.TLCJob {
 	if c.emit {
 		w = 1 // deterministic breadth-first order: the same behaviours on every run
 	}
+	if c.node2 == "" {
+		c.node2 = `{"a2","r"}`
+	}
 	return fw.TLCJob{Name: c.name, Module: "ConnCode", Cfg: "ConnCode_mc.cfg", Workers: w, Timeout: c.timeout,
 		Consts: map[string]string{"ACTS": actsSet(c.acts), "REV": tf(c.rev), "EXP": tf(c.exp), "FAULT": fmt.Sprint(c.fault),
 			"PRE": c.pre, "QUOTA": fmt.Sprint(c.quota), "CLAIM": tf(c.repaired), "CRB": tf(c.repaired), "EMIT": tf(c.emit),
+			"NODE2": c.node2, "CLOCAL": tf(c.clocal),
 			"VIEW": view, "INVS": c.invs}}
 }
 
@@ -640,6 +762,7 @@ const (
 	invStrict   = "AtMostOneMapping AtMostOneSuccess SuccessWasValid FailedLeavesNone FieldsOK NoLegacyDev ClaimExcludes"
 	invRepaired = "AtMostOneMappingR AtMostOneSuccess SuccessWasValid FailedLeavesNoneR FieldsOK NoLegacyDev ClaimExcludes"
 	invAsIs     = "AtMostOneMappingD AtMostOneSuccessD SuccessWasValid FailedLeavesNoneD FieldsOK"
+	invLocal    = "AtMostOneMappingL AtMostOneSuccessL SuccessWasValid FailedLeavesNone FieldsOK"
 )
 
 var genTable = map[string]genCfg{}
@@ -656,6 +779,9 @@ func genJobs(tier string) []genCfg {
 		// the code as it was before the repair: read-check-create-update without a claim
 		{name: "legacy:race", acts: 2, rev: true, pre: p1, quota: 2},
 		{name: "legacy:fault", acts: 1, fault: 1, pre: `{}`, quota: 2},
+		// a design whose claim key is node-local (each node's SetNX wins in its own cache): two nodes both
+		// activate. Unrealisable while the real hybrid routes the real claim key to the shared tier.
+		{name: "legacy:localclaim", acts: 2, pre: `{}`, quota: 2, repaired: true, clocal: true, node2: `{"a2"}`},
 	}
 	if tier == "thorough" {
 		jobs = append(jobs,
@@ -786,7 +912,7 @@ func selfTest(env *fw.Env, acc []*fw.Trace) []*fw.Trace {
 			nextID++
 			c := cloneTrace(t, nextID)
 			ev := append([]fw.Event{}, c.Events[:callOfOk]...)
-			ev = append(ev, fw.Event{"ev": "Call", "p": "rx", "op": "Rev", "client": 0}, fw.Event{"ev": "Ret", "p": "rx", "op": "Rev", "ok": true, "id": "", "listen": 0, "tclient": 0, "taddr": "", "err": ""})
+			ev = append(ev, fw.Event{"ev": "Call", "p": "rx", "op": "Rev", "client": 0, "node": "n1"}, fw.Event{"ev": "Ret", "p": "rx", "op": "Rev", "ok": true, "id": "", "listen": 0, "tclient": 0, "taddr": "", "err": ""})
 			c.Events = append(ev, c.Events[callOfOk:]...)
 			out = append(out, c)
 		}
@@ -809,6 +935,8 @@ func main() {
 				{name: "mc:repaired:all", acts: 2, rev: true, exp: true, fault: 1, pre: p1, quota: 2, repaired: true, invs: invRepaired},
 				// the code as it was: the properties hold only modulo the named deviations
 				{name: "mc:asis:all", acts: 2, rev: true, exp: true, fault: 1, pre: p1, quota: 2, invs: invAsIs},
+				// two nodes with a node-local claim: the properties hold only modulo the deviation "localClaim"
+				{name: "mc:localclaim", acts: 2, rev: true, pre: p1, quota: 2, repaired: true, clocal: true, node2: `{"a2"}`, invs: invLocal},
 			}
 			if env.Tier == "thorough" {
 				jobs = append(jobs,
@@ -838,7 +966,62 @@ func main() {
 			c := genTable[src]
 			var pre []string
 			_ = json.Unmarshal([]byte("["+strings.Trim(c.pre, "{}")+"]"), &pre)
-			return []json.RawMessage{fw.MustJSON(behaviour{Steps: steps, Legacy: !c.repaired, Pre: pre, Quota: c.quota})}
+			n2 := c.node2
+			if n2 == "" {
+				n2 = `{"a2","r"}`
+			}
+			var node2 []string
+			_ = json.Unmarshal([]byte("["+strings.Trim(n2, "{}")+"]"), &node2)
+			legacy := strings.HasPrefix(src, "legacy")
+			one := fw.MustJSON(behaviour{Steps: steps, Legacy: legacy, Pre: pre, Quota: c.quota, Backend: "double"})
+			two := fw.MustJSON(behaviour{Steps: steps, Legacy: legacy, Pre: pre, Quota: c.quota, Backend: "nodes2", Node2: node2})
+			switch {
+			case c.clocal:
+				return []json.RawMessage{two} // a node-local claim only differs from a shared one on two nodes
+			case legacy:
+				return []json.RawMessage{one}
+			}
+			return []json.RawMessage{one, two} // the same interleaving on one store and through two nodes
+		},
+		// fail safe: when the primary (non-legacy) behaviours stop being realisable the model no longer
+		// describes the code that runs - that is never "OK"
+		PostDrive: func(env *fw.Env, traces []*fw.Trace) error {
+			type cnt struct{ real, tot int }
+			by := map[string]*cnt{}
+			all := &cnt{}
+			for _, t := range traces {
+				if strings.HasPrefix(t.Beh.Src, "legacy") || t.Beh.Src == "extra" || (t.Status != fw.Realised && t.Status != fw.Unrealisable) {
+					continue
+				}
+				var b behaviour
+				if json.Unmarshal(t.Beh.Data, &b) != nil || b.Legacy {
+					continue
+				}
+				k := t.Beh.Src + "/" + b.Backend
+				if by[k] == nil {
+					by[k] = &cnt{}
+				}
+				for _, c := range []*cnt{by[k], all} {
+					c.tot++
+					if t.Status == fw.Realised {
+						c.real++
+					}
+				}
+			}
+			keys := make([]string, 0, len(by))
+			for k := range by {
+				keys = append(keys, k)
+			}
+			sort.Strings(keys)
+			for _, k := range keys {
+				if c := by[k]; c.tot >= 20 && 2*c.real < c.tot {
+					return fmt.Errorf("model no longer matches the code: only %d%% of the behaviours of %s are realisable (%d of %d)", 100*c.real/c.tot, k, c.real, c.tot)
+				}
+			}
+			if all.tot >= 20 && 2*all.real < all.tot {
+				return fmt.Errorf("model no longer matches the code: only %d%% of the primary behaviours are realisable (%d of %d)", 100*all.real/all.tot, all.real, all.tot)
+			}
+			return nil
 		},
 		ExtraBeh: func(env *fw.Env) []json.RawMessage {
 			n := 60
@@ -847,10 +1030,7 @@ func main() {
 			}
 			var out []json.RawMessage
 			for i := 0; i < n; i++ {
-				b := behaviour{Free: true, Backend: "double", Procs: 3 + i%2, Rev: i%3 == 0, Seed: i, Quota: 50}
-				if i%2 == 1 {
-					b.Backend = "hybrid"
-				}
+				b := behaviour{Free: true, Backend: []string{"double", "nodes2", "hybrid", "nodes2"}[i%4], Procs: 3 + i%2, Rev: i%3 == 0, Seed: i, Quota: 50}
 				switch i % 5 {
 				case 1, 2:
 					b.Fault = 1 + (i/5)%24
@@ -868,13 +1048,15 @@ func main() {
 			if env.Tier == "quick" {
 				switch src {
 				case "gen:expire":
-					return 500
+					return 600
 				case "legacy:race":
 					return 600
 				}
 				return 0
 			}
 			switch src {
+			case "gen:expire":
+				return 14000
 			case "gen:all2":
 				return 10000
 			case "legacy:race3":
@@ -896,7 +1078,7 @@ func main() {
 		},
 		JudgeModule: "ConnCodeTrace",
 		JudgeCfg:    "ConnCodeTrace.cfg",
-		Rule:        "one behaviour per (state, storage-step) transition of ConnCode.tla (2-3 activators + revoker on one code, expiry at every position, every single write-fault position), forced on the real conncode.Service/PortMappingService/repositories/IDManager through a gate-controlled store double; plus seeded free-running runs (also through the real hybrid.Storage); non-trivial = at least two calls",
+		Rule:        "one behaviour per (state, storage-step) transition of ConnCode.tla (2-3 activators + revoker on one code, expiry at every position, every single write-fault position), each forced on the real conncode.Service/PortMappingService/repositories/IDManager (a) on one gate-controlled store double and (b) through two nodes, each with its own real hybrid.Storage (own local cache, shared cache and persistent tier in common); plus seeded free-running runs on the double, one hybrid.Storage and two nodes; non-trivial = at least two calls",
 		Assumptions: []string{"one code; activators are distinct listen clients different from the target client (no singleflight coalescing)", "expiry = the wall clock passes ActivationExpiresAt and the code/claim keys (same TTL) vanish; realised by a short activation TTL and sleeping", "the store double is a correct map with atomic SetNX and list operations (hybrid's own tier steps: C14)"},
 		TrustedBase: []string{"TLC", "spec/ConnCodeTrace.tla as the reading of C06", "harness/sched gate scheduler", "harness/doubles store double"},
 	})
